@@ -18,89 +18,24 @@ theorem i32_xor_ok : Full2 CVal.i32 CVal.i32 CVal.i32 (wBin .xor) f_i32_xor := b
   unfold f_i32_xor
   c03_tac
 
-/-- `i32.shl`: count masked with 63: a count of 32..63 on a 32-bit operand is undefined in C (WebAssembly: count mod 32) -/
-theorem i32_shl_partial : Partial2 CVal.i32 CVal.i32 CVal.i32 Guard.shl32 (wBin .shl) f_i32_shl := by
+theorem i32_shl_ok : Full2 CVal.i32 CVal.i32 CVal.i32 (wBin .shl) f_i32_shl := by
   unfold f_i32_shl
   c03_tac
 
-theorem i32_shl_full_false : ¬ Full2 CVal.i32 CVal.i32 CVal.i32 (wBin .shl) f_i32_shl := by
-  intro h
-  have h := h 0x1#32 0x20#32 []
-  revert h
-  decide
-
-theorem i32_shl_sound : Sound2 CVal.i32 CVal.i32 CVal.i32 (wBin .shl) f_i32_shl := by
-  unfold f_i32_shl
-  c03_sound
-
-example : Guard.shl32 0x3#32 0x2#32 := by decide
-
-/-- `i32.shr_s`: count masked with 63: a count of 32..63 on a 32-bit operand is undefined in C -/
-theorem i32_shr_s_partial : Partial2 CVal.i32 CVal.i32 CVal.i32 Guard.cnt32 (wBin .shr_s) f_i32_shr_s := by
+theorem i32_shr_s_ok : Full2 CVal.i32 CVal.i32 CVal.i32 (wBin .shr_s) f_i32_shr_s := by
   unfold f_i32_shr_s
   c03_tac
 
-theorem i32_shr_s_full_false : ¬ Full2 CVal.i32 CVal.i32 CVal.i32 (wBin .shr_s) f_i32_shr_s := by
-  intro h
-  have h := h 0x1#32 0x20#32 []
-  revert h
-  decide
-
-theorem i32_shr_s_sound : Sound2 CVal.i32 CVal.i32 CVal.i32 (wBin .shr_s) f_i32_shr_s := by
-  unfold f_i32_shr_s
-  c03_sound
-
-example : Guard.cnt32 0x3#32 0x2#32 := by decide
-
-/-- `i32.shr_u`: count masked with 63: a count of 32..63 on a 32-bit operand is undefined in C -/
-theorem i32_shr_u_partial : Partial2 CVal.i32 CVal.i32 CVal.i32 Guard.cnt32 (wBin .shr_u) f_i32_shr_u := by
+theorem i32_shr_u_ok : Full2 CVal.i32 CVal.i32 CVal.i32 (wBin .shr_u) f_i32_shr_u := by
   unfold f_i32_shr_u
   c03_tac
 
-theorem i32_shr_u_full_false : ¬ Full2 CVal.i32 CVal.i32 CVal.i32 (wBin .shr_u) f_i32_shr_u := by
-  intro h
-  have h := h 0x1#32 0x20#32 []
-  revert h
-  decide
-
-theorem i32_shr_u_sound : Sound2 CVal.i32 CVal.i32 CVal.i32 (wBin .shr_u) f_i32_shr_u := by
-  unfold f_i32_shr_u
-  c03_sound
-
-example : Guard.cnt32 0x3#32 0x2#32 := by decide
-
-/-- `i32.rotl`: I32_ROTL applied to a signed int32_t: undefined left shift and arithmetic right shift -/
-theorem i32_rotl_partial : Partial2 CVal.i32 CVal.i32 CVal.i32 Guard.rotl32 (wBin .rotl) f_i32_rotl := by
+theorem i32_rotl_ok : Full2 CVal.i32 CVal.i32 CVal.i32 (wBin .rotl) f_i32_rotl := by
   unfold f_i32_rotl
   c03_tac
 
-theorem i32_rotl_full_false : ¬ Full2 CVal.i32 CVal.i32 CVal.i32 (wBin .rotl) f_i32_rotl := by
-  intro h
-  have h := h 0xfffffffe#32 0x1#32 []
-  revert h
-  decide
-
-theorem i32_rotl_sound : Sound2 CVal.i32 CVal.i32 CVal.i32 (wBin .rotl) f_i32_rotl := by
-  unfold f_i32_rotl
-  c03_sound
-
-example : Guard.rotl32 0x1#32 0x4#32 := by decide
-
-/-- `i32.rotr`: I32_ROTR applied to a signed int32_t: arithmetic right shift and undefined left shift -/
-theorem i32_rotr_partial : Partial2 CVal.i32 CVal.i32 CVal.i32 Guard.rotr32 (wBin .rotr) f_i32_rotr := by
+theorem i32_rotr_ok : Full2 CVal.i32 CVal.i32 CVal.i32 (wBin .rotr) f_i32_rotr := by
   unfold f_i32_rotr
   c03_tac
-
-theorem i32_rotr_full_false : ¬ Full2 CVal.i32 CVal.i32 CVal.i32 (wBin .rotr) f_i32_rotr := by
-  intro h
-  have h := h 0xfffffffe#32 0x1#32 []
-  revert h
-  decide
-
-theorem i32_rotr_sound : Sound2 CVal.i32 CVal.i32 CVal.i32 (wBin .rotr) f_i32_rotr := by
-  unfold f_i32_rotr
-  c03_sound
-
-example : Guard.rotr32 0x1#32 0x4#32 := by decide
 
 end WaVerif.C03.Rows
